@@ -125,6 +125,41 @@ class Module:
             return {self.ev(k, loc): self.ev(v, loc) for k, v in zip(n.keys, n.values)}
         if isinstance(n, (ast.Tuple, ast.List)):
             return [self.ev(x, loc) for x in n.elts]
+        if isinstance(n, (ast.DictComp, ast.ListComp, ast.GeneratorExp)):
+            out = []
+
+            def bind(t, v, l):
+                if isinstance(t, ast.Name):
+                    l[t.id] = v
+                elif isinstance(t, (ast.Tuple, ast.List)):
+                    for tt, vv in zip(t.elts, v):
+                        bind(tt, vv, l)
+                else:
+                    raise NotImplementedError("comprehension target")
+
+            def rec(i, l):
+                if i == len(n.generators):
+                    if isinstance(n, ast.DictComp):
+                        out.append((self.ev(n.key, l), self.ev(n.value, l)))
+                    else:
+                        out.append(self.ev(n.elt, l))
+                    return
+                g = n.generators[i]
+                it = self.ev(g.iter, l)
+                if isinstance(it, dict):
+                    it = list(it)
+                for x in it:
+                    l2 = dict(l)
+                    bind(g.target, x, l2)
+                    if g.ifs:
+                        raise NotImplementedError("comprehension condition")
+                    rec(i + 1, l2)
+            rec(0, dict(loc))
+            return dict(out) if isinstance(n, ast.DictComp) else out
+        if isinstance(n, ast.Call) and isinstance(n.func, ast.Attribute) and n.func.attr in ("items", "keys", "values") and not n.args:
+            base = self.ev(n.func.value, loc)
+            if isinstance(base, dict):
+                return list(getattr(base, n.func.attr)())
         if isinstance(n, ast.Call):
             return self.call(n, loc)
         raise NotImplementedError(type(n).__name__)
